@@ -74,8 +74,8 @@ def project(z, basis):
     return p
 
 
-def solve_normal(Sc_cols, Zcols):
-    """some exact solution of (ScᵀSc) β = Scᵀ Z (free variables 0); β as ms x mz list of rows"""
+def solve_normal(Sc_cols, Zcols, free=0):
+    """some exact solution of (ScᵀSc) β = Scᵀ Z (free variables set to `free`); β as ms x mz list of rows"""
     ms, mz = len(Sc_cols), len(Zcols)
     A = [[fdot(Sc_cols[a], Sc_cols[b]) for b in range(ms)] + [fdot(Sc_cols[a], z) for z in Zcols] for a in range(ms)]
     piv, r = [], 0
@@ -92,9 +92,10 @@ def solve_normal(Sc_cols, Zcols):
                 A[i] = [x - k * y for x, y in zip(A[i], A[r])]
         piv.append(c)
         r += 1
-    beta = [[F(0)] * mz for _ in range(ms)]
+    beta = [[F(free)] * mz for _ in range(ms)]
+    fr = [c for c in range(ms) if c not in piv]
     for i, c in enumerate(piv):
-        beta[c] = A[i][ms:]
+        beta[c] = [v - sum(A[i][f] * F(free) for f in fr) for v in A[i][ms:]]
     return beta, len(piv)
 
 
@@ -126,6 +127,7 @@ class Spec:
         self.R1 = [[a - b for a, b in zip(z, p)] for z, p in zip(self.Z, self.P)]      # alpha = 1 output columns
         self.out = [[a - self.alpha * b for a, b in zip(z, p)] for z, p in zip(self.Z, self.P)]
         self.beta, _ = solve_normal(self.Sc, self.Z)
+        self.beta_alt, _ = solve_normal(self.Sc, self.Z, free=1)     # a DIFFERENT solution when the block is rank deficient
         self.Sn = columns(Xn, ids) if Xn else [[] for _ in ids]
         self.Zn = columns(Xn, self.ns) if Xn else [[] for _ in self.ns]
         self.nn = len(Xn)
@@ -354,6 +356,8 @@ class CHECK(Check):
         # the model re-built from the lifted source text (Generated/CorrRemoverSrc.lean), exact least-squares beta
         ls += [f"corrsrc.means {X} {ids}", f"corrsrc.split {sp.m} {ids}", f"corrsrc.normal {X} {ids} {eb}",
                f"corrsrc.transform {X} {ids} {em} {eb} {proto.rat(sp.alpha)}"]
+        # theorem output_independent_of_solution on the driver: two exact solutions, same alpha = 1 output
+        ls += [f"corr.transform {X} {ids} {em} {eb} 1", f"corr.transform {X} {ids} {em} {proto.mat(sp.beta_alt)} 1"]
         if "exc" in o or "crash" in o or not self._usable(o, sp):
             return ls
         mean, beta, a = proto.lst(o["mean"]), proto.mat(o["beta"]), proto.rat(sp.alpha)
@@ -379,8 +383,11 @@ class CHECK(Check):
         tol2 = REL_TOL * sp.scale ** 2 * sp.n
         # ---- model vs oracle (exact) ------------------------------------------------
         if mo is not None:
-            if len(mo) < 9 or "bad-op" in mo[:5]:
-                return [Problem("harness", f"driver rejected a valid case: {mo[:9]}")]
+            if len(mo) < 11 or "bad-op" in mo[:5] or "bad-op" in mo[9:11]:
+                return [Problem("harness", f"driver rejected a valid case: {mo[:11]}")]
+            if mo[9] != mo[10] or proto.p_mat(mo[9]) != to_rows(sp.R1, sp.n):
+                probs.append(Problem("harness", "two exact least-squares solutions give different alpha=1 outputs in the model "
+                                     "(theorem `output_independent_of_solution`)"))
             if proto.p_list(mo[0]) != sp.smean:
                 probs.append(Problem("harness", f"model column means {mo[0]} vs oracle {sp.smean}"))
             if [int(t) for t in proto.p_list(mo[1])] != sp.ns:
@@ -466,45 +473,45 @@ class CHECK(Check):
                 probs.append(Problem("correspondence", f"fitted state has unexpected shape: mean {o.get('mean_shape')}, beta {np.shape(o.get('beta'))}",
                                      "C15.fitted_state"))
                 return probs
-            if len(mo) != 16 or "bad-op" in mo[9:13]:
-                return probs + [Problem("harness", f"driver rejected the fitted state: {mo[9:]}")]
-            if "bad-op" in mo[13:16] or "bad-op" in mo[5:9]:
-                return probs + [model_problem(f"the model re-built from the lifted source rejects the fitted state: {mo[13:]}")]
+            if len(mo) != 18 or "bad-op" in mo[11:15]:
+                return probs + [Problem("harness", f"driver rejected the fitted state: {mo[11:]}")]
+            if "bad-op" in mo[15:18] or "bad-op" in mo[5:9]:
+                return probs + [model_problem(f"the model re-built from the lifted source rejects the fitted state: {mo[15:]}")]
             dm = max(abs(a - float(b)) for a, b in zip(o["mean"], sp.smean))
             mean_ok = dm <= tol
             if not mean_ok:
                 probs.append(Problem("correspondence", f"sensitive_mean_ {o['mean']} (shape {o['mean_shape']}) is not the vector of column means "
                                      f"{[float(v) for v in sp.smean]}", "C15.fitMean"))
             bscale = max(1.0, max(abs(v) for r in o["beta"] for v in r))
-            nres = max([abs(float(v)) for r in proto.p_mat(mo[9]) for v in r] + [0.0])
+            nres = max([abs(float(v)) for r in proto.p_mat(mo[11]) for v in r] + [0.0])
             lstsq_ok = nres <= tol2 * bscale
             if not lstsq_ok:
                 probs.append(Problem("correspondence", f"fitted beta_ violates the normal equations of (S - sensitive_mean_) by {nres:.3g} "
                                      "(hypothesis isLstsq of the theorems)", "C15.isLstsq"))
-            d = maxdiff(ft, proto.p_mat(mo[10]))
+            d = maxdiff(ft, proto.p_mat(mo[12]))
             if d is None or d > tol * bscale:
                 probs.append(Problem("correspondence", f"fit_transform differs from the model's transform(mean_, beta_, alpha) by {d}",
                                      "C15.transform_entry"))
-            d = maxdiff(o["new"], proto.p_mat(mo[12]))
+            d = maxdiff(o["new"], proto.p_mat(mo[14]))
             if d is None or d > tol * bscale:
                 probs.append(Problem("correspondence", f"transform(new) differs from the model's transform(mean_, beta_, alpha) by {d}",
                                      "C15.transform_new_data"))
             # the lifted model with the fitted state: normal equations of the operands lstsq is called with, transform of the
             # training batch and of new data
-            nres_s = max([abs(float(v)) for r in proto.p_mat(mo[13]) for v in r] + [0.0])
+            nres_s = max([abs(float(v)) for r in proto.p_mat(mo[15]) for v in r] + [0.0])
             if nres_s > tol2 * bscale and lstsq_ok:
                 probs.append(Problem("correspondence", f"fitted beta_ violates the normal equations of the lstsq operands lifted from the source by {nres_s:.3g}",
                                      "C15.src_uncorrelated"))
-            d = maxdiff(ft, proto.p_mat(mo[14]))
+            d = maxdiff(ft, proto.p_mat(mo[16]))
             if d is None or d > tol * bscale:
                 probs.append(Problem("correspondence", f"fit_transform differs from the transform lifted from the source by {d}", "C15.src_alpha_blend"))
-            d = maxdiff(o["new"], proto.p_mat(mo[15]))
+            d = maxdiff(o["new"], proto.p_mat(mo[17]))
             if d is None or d > tol * bscale:
                 probs.append(Problem("correspondence", f"transform(new) differs from the transform lifted from the source by {d}",
                                      "C15.src_transform_new_data"))
             if mean_ok and lstsq_ok:
                 # theorem cov_alpha instance on the model: cov = (1 - alpha) * cov(Z, S) up to the lstsq residual
-                cm = proto.p_mat(mo[11])
+                cm = proto.p_mat(mo[13])
                 for j in range(sp.mz):
                     for k in range(sp.ms):
                         want = (1 - sp.alpha) * cov_num(sp.Z[j], sp.S[k]) / (sp.n - 1)
